@@ -28,7 +28,8 @@ FailedRun(t) ==
     IF t.raised # "" THEN {"raised"} ELSE
     IF ~t.types_ok THEN {"entries_not_hashable_nonneg_int_tuples"} ELSE
     IF Len(t.out) # t.N THEN {"length"} ELSE
-    {c \in {"divisible", "support", "never_removes", "fewest", "usable_by_empirical_loader", "usable_by_generator"} :
+    {c \in {"divisible", "support", "never_removes", "fewest", "usable_by_empirical_loader", "usable_by_generator",
+            "returned_sequence_changed_by_a_later_sample"} :
        CASE c = "divisible" -> \E k \in 1..K : ColSum(t.out, k) % t.sizes[k] # 0
          [] c = "support" -> t.raw_known /\ \E v \in DOMAIN t.raw : t.raw[v] \notin PosKeys(t)
          [] c = "never_removes" -> t.raw_known /\ Len(t.raw) = t.N /\ \E v \in DOMAIN t.raw : \E k \in 1..K : t.out[v][k] < t.raw[v][k]
@@ -36,7 +37,8 @@ FailedRun(t) ==
                IF t.raw_known THEN Len(t.raw) # t.N \/ \E k \in 1..K : ColSum(t.out, k) - ColSum(t.raw, k) # Need(t.raw, t.sizes, k)
                ELSE t.N <= 4 /\ ~\E raw \in [1..t.N -> PosKeys(t)] : ExplainedBy(t, raw)
          [] c = "usable_by_empirical_loader" -> t.usable_empirical # ""
-         [] c = "usable_by_generator" -> t.usable_generator # ""}
+         [] c = "usable_by_generator" -> t.usable_generator # ""
+         [] c = "returned_sequence_changed_by_a_later_sample" -> t.out_again # t.out}
 
 FailedDist(t) ==
     LET W == SumSeq(t.wts)
